@@ -362,6 +362,8 @@ def rand_user_line(r):
 
 
 def rand_user_body(r, marker=None):
+    if marker is None and r.random() < 0.12:
+        return []          # the user deleted whatever the template had put between the tags
     n = r.choice([1, 1, 2, 3, 5])
     lines = [rand_user_line(r) for _ in range(n)]
     if marker:
